@@ -236,8 +236,8 @@ func runC07(r *Run) {
 	}
 	r.Rule("C07.R5")
 	if fn := r.Fn("trillian/ctfe.marshalGetEntriesResponse"); fn != nil {
-		r.ExpectStores(fn, "marshal:leaf_input", "&(new:ct.LeafEntry#*.LeafInput)", "p1[(1 + it@*)].LeafValue", 1)
-		r.ExpectStores(fn, "marshal:extra_data", "&(new:ct.LeafEntry#*.ExtraData)", "p1[(1 + it@*)].ExtraData", 1)
+		r.ExpectStores(fn, "marshal:leaf_input", "&(new:ct.LeafEntry#*.LeafInput)", "p1[it@*].LeafValue", 1)
+		r.ExpectStores(fn, "marshal:extra_data", "&(new:ct.LeafEntry#*.ExtraData)", "p1[it@*].ExtraData", 1)
 		// both fields come from the same element
 		li := r.StoresTo(fn, "&(new:ct.LeafEntry#*.LeafInput)")
 		ed := r.StoresTo(fn, "&(new:ct.LeafEntry#*.ExtraData)")
@@ -401,12 +401,12 @@ func runC07(r *Run) {
 	if fn := r.Fn("(*client.LogClient).GetEntries"); fn != nil {
 		if c := r.OneCall(fn, "client.GetEntries:decode", "ct.LogEntryFromLeaf"); c != nil {
 			idx := r.D.Lin(CallArgs(c)[0], nil).String()
-			r.Check("client.GetEntries:index", glob("+it@* +p2 +1", idx) || glob("+p2 +φ* +1", idx) || glob("+φ* +p2 +1", idx), r.Where(c), "entry i is decoded with index "+idx+" (start + i)")
+			r.Check("client.GetEntries:index", linNoConst(idx) && (glob("+it@* +p2", idx) || glob("+p2 +φ*", idx) || glob("+φ* +p2", idx)), r.Where(c), "entry i is decoded with index "+idx+" (start + i)")
 			a := baseAlloc(CallArgs(c)[1])
 			ok := false
 			if a != nil {
 				for _, st := range r.StoresTo(fn, r.D.allocName(a)) {
-					ok = glob("(*client.LogClient).*etRawEntries(*)#0.Entries[(1 + it@*)]", r.D.D(st.Val))
+					ok = glob("(*client.LogClient).*etRawEntries(*)#0.Entries[it@*]", r.D.D(st.Val))
 				}
 			}
 			r.Check("client.GetEntries:element", ok, r.Where(c), "the decoded entry is Entries[i] of the reply")
